@@ -67,6 +67,20 @@ Theorem request_is_expansion : forall t u, expand_req (build_req t u) = Ok (expa
 Proof. exact request_is_expansion_proof. Qed.
 Print Assumptions request_is_expansion.
 
+(* Which PART of the output the window shows (scroll machine of model/PreviewModel.v: goroutine 2 of one command and
+   the render loop's handling of its results).  For every timing of output lines, 100 ms ticks, the end of the output
+   and redraws: once the command has ended and every result has been handled, the window holds all n lines of the
+   output and stands at the offset the request asked for (spec: final_offset of requested_offset), provided no
+   pending result was replaced in the one-slot mailbox before the render loop handled it (k_lost) and no partial
+   result was published when exactly `req` lines had arrived (k_edge).  Both exceptions are real for the code:
+   scroll_offset_refuted_edge (known finding c20-scroll-edge) and scroll_offset_refuted_overwrite. *)
+Theorem scroll_offset_applied : forall req headers w0 sched,
+  let s := srun true req headers sched (sinit req w0) in
+  sdone s = true -> k_lost s = false -> k_edge s = false ->
+  k_wn s = k_n s /\ k_woff s = final_offset req headers (k_n s).
+Proof. exact scroll_offset_applied_proof. Qed.
+Print Assumptions scroll_offset_applied.
+
 (* ---------------------------------------------------------------- regression witnesses (vm_compute) *)
 
 Definition T0 := mkT 1 true true true.
@@ -124,4 +138,41 @@ Proof. vm_compute. repeat split; reflexivity. Qed.
 Example c20_exit_nonvacuous :
   let s := run coded [LRender; LTake; LSpawn; LExit; LQuitPub; LKill; LReap; LTake; LQuitPub; LProcEnd] (init T0 U0) in
   s_ended s = true /\ alive_procs s = [] /\ length (s_tab s) = 1%nat.
+Proof. vm_compute. repeat split; reflexivity. Qed.
+
+(* change-preview-window(hidden), a cursor movement while the window is away, change-preview-window(): the
+   command for the line the cursor is on NOW is started and its output shown (hypotheses of latest_wins hold) *)
+Example c20_window_cycle_nonvacuous :
+  let s := run coded [LRender; LTake; LSpawn; LOutput [120]; LChildExit; LReap; LDisplay;
+                      LHideWin; LMove 1; LRender; LShowWin; LTake; LSpawn; LOutput [121]; LChildExit; LReap; LDisplay]
+               (init T0 U0) in
+  quiescent coded s = true /\ s_visible s = true /\ s_clean s = true /\ length (s_tab s) = 2%nat /\
+  s_shown s = [[121]] /\ expansion (s_tmpl s) (s_ui s) = mkA 1 1 (Some [1]) (Some []).
+Proof. vm_compute. repeat split; reflexivity. Qed.
+
+(* ---------------------------------------------------------------- scroll machine: witnesses *)
+
+Fixpoint rep {A} (n : nat) (x : A) : list A := match n with O => [] | S k => x :: rep k x end.
+
+(* request: offset 3 (line 4 on top).  2 lines, two ticks (nothing is rendered: the requested line is not there),
+   8 more lines, end of output: the window holds 10 lines at offset 3 *)
+Example scroll_nonvacuous :
+  let s := srun true 3 0 (rep 2 GLine ++ [GTick; GTick; GTick] ++ rep 8 GLine ++ [GTick; RDisplay; GLine; GEof; RDisplay]) (sinit 3 0) in
+  sdone s = true /\ k_lost s = false /\ k_edge s = false /\ k_wn s = 11 /\ k_woff s = 3.
+Proof. vm_compute. repeat split; reflexivity. Qed.
+(* the machine WITHOUT the `len(lines) >= initialOffset` condition: the partial result uses up the offset *)
+Example scroll_offset_refuted_no_gate :
+  let s := srun false 3 0 (rep 2 GLine ++ [GTick; GTick; RDisplay] ++ rep 8 GLine ++ [GEof; RDisplay]) (sinit 3 0) in
+  sdone s = true /\ k_lost s = false /\ k_edge s = false /\ k_wn s = 10 /\ k_woff s = 1 /\ final_offset 3 0 (k_n s) = 3.
+Proof. vm_compute. repeat split; reflexivity. Qed.
+(* the tree today (known finding c20-scroll-edge): exactly `req` lines at the tick: clamped one line short *)
+Example scroll_offset_refuted_edge :
+  let s := srun true 3 0 (rep 3 GLine ++ [GTick; GTick; RDisplay] ++ rep 7 GLine ++ [GEof; RDisplay]) (sinit 3 0) in
+  sdone s = true /\ k_lost s = false /\ k_edge s = true /\ k_woff s = 2 /\ final_offset 3 0 (k_n s) = 3.
+Proof. vm_compute. repeat split; reflexivity. Qed.
+(* the tree today: the partial result that carries the offset is replaced by the final one before the render loop
+   has handled it (a window of microseconds; not observed on the real program) *)
+Example scroll_offset_refuted_overwrite :
+  let s := srun true 3 0 (rep 5 GLine ++ [GTick; GTick; GEof; RDisplay]) (sinit 3 7) in
+  sdone s = true /\ k_lost s = true /\ k_edge s = false /\ k_woff s = 7 /\ final_offset 3 0 (k_n s) = 3.
 Proof. vm_compute. repeat split; reflexivity. Qed.
